@@ -300,19 +300,37 @@ example :
       ∧ ∀ q : QImg, q.h % 6 = 0 → OrderOk q (sortedOrder q) :=
   ⟨by simp, by simp [truncHeight], fun q h6 => sortedOrder_ok q h6⟩
 
+/-- `C12_subsample_threshold` — "small enough not to be subsampled", as a quantity of the model: `draw` asks
+for 256 registers, and the palette extraction of the quantiser model (`sampleRate`, tied to the code by the
+`subsampled` correspondence lines on pictures just below and just above the threshold, and by the
+exactness oracle on pictures of 25 601 … 51 199 pixels) walks every pixel of the kept part of a `w × h` view
+exactly when `w·(h/6·6) / (256·100) < 2`, i.e. below 51 200 pixels. -/
+theorem C12_subsample_threshold (w h : Nat) (hbig : w * truncHeight h < 2 ^ 32 * 25600) :
+    (SurfModel.SixelDraw.subsampled w h = false ↔ w * truncHeight h / (256 * 100) < 2)
+    ∧ (SurfModel.SixelDraw.subsampled w h = false ↔ w * truncHeight h < 51200) :=
+  ⟨SurfProofs.Lemmas.SixelDraw.subsampled_iff w h hbig, SurfProofs.Lemmas.SixelDraw.subsampled_iff' w h hbig⟩
+
+/-- e.g. 213 × 240 is walked completely, 214 × 240 is not -/
+example : SurfModel.SixelDraw.subsampled 213 240 = false ∧ SurfModel.SixelDraw.subsampled 214 240 = true
+    ∧ SurfModel.SixelDraw.subsampled 107 240 = false := by decide
+
 /-- `C12_draw_exact` — the second sentence through `draw`: let `src` give the composited 8-bit pixels of a
 view of `w > 0` columns and `h ≥ 6` rows; if the rows that are kept (`y < h/6·6`) have at most 256 distinct
-colours at 0-100 resolution and are few enough not to be subsampled, `draw` (zero-error dithering, which is
-what happens then) writes bytes that decode to exactly those rows at 0-100 resolution. -/
+colours at 0-100 resolution and the view is not subsampled (`subsampled w h = false`, see
+`C12_subsample_threshold`), `draw` (zero-error dithering, which is what happens then) writes bytes that
+decode to exactly those rows at 0-100 resolution. -/
 theorem C12_draw_exact (w h : Nat) (src : Nat → Nat → RGB) (order : QImg → Nat → List Nat)
     (hw : 0 < w) (hh : 6 ≤ h)
     (hsrc : ∀ y x, y < truncHeight h → x < w → (src y x).r < 256 ∧ (src y x).g < 256 ∧ (src y x).b < 256)
     (hfit : AtMostColours 256 w (truncHeight h) (fun y x => at100 (src y x)))
-    (hsmall : w * truncHeight h / (256 * 100) < 2)
+    (hbig : w * truncHeight h < 2 ^ 32 * 25600)
+    (hnosub : SurfModel.SixelDraw.subsampled w h = false)
     (hord : ∀ q : QImg, q.h % 6 = 0 → OrderOk q (order q)) :
     ∃ bytes r, SurfModel.SixelDraw.drawFreshExact w h (rowMajor w h src) order = .wrote bytes
       ∧ sixel bytes = some r ∧ r.width = w ∧ r.height = truncHeight h ∧ r.outside = 0
       ∧ ∀ y x, y < truncHeight h → x < w → r.get x y = some (at100 (src y x)) := by
+  have hsmall : w * truncHeight h / (256 * 100) < 2 :=
+    (SurfProofs.Lemmas.SixelDraw.subsampled_iff w h hbig).1 hnosub
   have hth : 0 < truncHeight h := by have := SurfProofs.Lemmas.SixelDraw.truncHeight_pos hh; omega
   obtain ⟨pal, is, hq, hall⟩ := C12_exact_quant w (truncHeight h) src hw hth
     (SurfProofs.Lemmas.SixelDraw.truncHeight_mod h) hsrc hfit hsmall
@@ -322,6 +340,20 @@ theorem C12_draw_exact (w h : Nat) (src : Nat → Nat → RGB) (order : QImg →
   simp only [SurfModel.SixelDraw.drawFreshExact, SurfProofs.Lemmas.SixelDraw.reduced_rowMajor, hq,
     SurfModel.SixelDraw.drawWith]
   rfl
+
+/-- hypotheses met: a 160 × 203 view (198 rows kept, 31 680 pixels) with two colours -/
+example :
+    let src : Nat → Nat → RGB := fun y x => if (x + y) % 2 = 0 then ⟨255, 128, 3⟩ else ⟨10, 200, 90⟩
+    0 < 160 ∧ 6 ≤ 203
+      ∧ (∀ y x, y < truncHeight 203 → x < 160 → (src y x).r < 256 ∧ (src y x).g < 256 ∧ (src y x).b < 256)
+      ∧ AtMostColours 256 160 (truncHeight 203) (fun y x => at100 (src y x))
+      ∧ 160 * truncHeight 203 < 2 ^ 32 * 25600 ∧ SurfModel.SixelDraw.subsampled 160 203 = false
+      ∧ ∀ q : QImg, q.h % 6 = 0 → OrderOk q (sortedOrder q) := by
+  intro src
+  refine ⟨by decide, by decide, ?_, ⟨[at100 ⟨255, 128, 3⟩, at100 ⟨10, 200, 90⟩], by decide, ?_⟩,
+    by decide, by decide, fun q h6 => sortedOrder_ok q h6⟩
+  · intro y x _ _; simp only [src]; split <;> decide
+  · intro y x _ _; simp only [src]; split <;> simp
 
 /-! ## the `usize` subtractions of `draw` -/
 
